@@ -125,6 +125,11 @@ func (colorizeToolS) echoResetColor(out io.Writer) { //nolint:unused //no
 //
 
 func (colorizeToolS) translate(str string, initialColor ...color.Color) string {
+	if !strings.ContainsAny(str, "<&") {
+		// plain text has no markup to translate, and the html parser
+		// would eat its leading whitespaces and the padding with them.
+		return str
+	}
 	clr := color.FgDefault
 	for _, c := range initialColor {
 		clr = c
